@@ -20,6 +20,10 @@ CLAIMED = {
             "Every journal write is under the inter-process file lock, acquire() can report success only after os.symlink / os.open(O_CREAT|O_EXCL) succeeded, release renames to a unique name then unlinks and is reached on all exits, the reader accepts a line only under the newline / size-snapshot / no-pending-error guards, and offset-cache entries are derived and dropped consistently. Exhaustive over paths of _file.py. Decides these necessary clauses, not file-system atomicity or take-over races.",
             "Trusts EEXIST semantics of symlink/O_EXCL and atomic rename.",
             "DESIGN.md §3 C07"),
+    "C20": ("freshness typestate as a forward dataflow on the CFG (SHARED/SHALLOW/CLEAN per local and attribute path, publish transitions), function specialisation for deepcopy=True/False with callee summaries",
+            "Storages replace trial objects instead of mutating them, get_all_trials honours deepcopy=True and returns a fresh list for deepcopy=False in all five backends, Study getters return deep copies, and no client code mutates a reference obtained from a storage getter without a deep copy (locals flow-sensitively, self fields class-wide). Exhaustive over every mutation site of the scoped packages. Decides absence of in-place mutation of reader-visible objects; not user code mutating deepcopy=False results.",
+            "Trusts copy.copy/deepcopy semantics; unknown call results are treated as private; storage receivers recognised by name (storage/_storage/_backend).",
+            "DESIGN.md §3 C20"),
 }
 
 NOT_APPLICABLE = {
@@ -64,6 +68,7 @@ def main():
             "enable": "none: the checks are static analyses of /repo's source; no instrumentation is compiled in and no source commit uses the guard",
             "baseline_off_cmd": "cd /repo && /venv/bin/python -m pytest -ra -q -p no:cacheprovider --timeout=900 --continue-on-collection-errors --junitxml=/tmp/optuna_baseline.junit.xml",
             "source_commits": [],
+            "fix_commits": ["899865b", "bf20abd", "1904569", "255ec62"],
             "add_only": True,
         },
         "engines": [{
